@@ -98,7 +98,7 @@ def unit_format(ctx, T):
             for d in (0, 1, 9, 10, 31, 32, 100):
                 lines.append('dt.dtfmt\tluisdate\t%d\t%d\t%d' % (y, m, d))
                 impl.append(cps(F.luis_date(y, m, d)))
-    model = common.driver(lines)
+    model = dtres.drive(lines)
     ctx.count('format_date/luis_date', len(lines))
     for l, a, m in zip(lines, impl, model):
         if a != m:
@@ -131,7 +131,7 @@ def unit_generate_dates(ctx, T):
             f, p = DU.generate_dates(True, ref, ref.year, dd.month, dd.day)
             lines.append('dt.gendates\t1\t%s\t%d\t%d\t%d' % (dtres.dt_field(ref), ref.year, dd.month, dd.day))
             impl.append('%s|%s' % (dtres.dt_field(f), dtres.dt_field(p)))
-    model = common.driver(lines)
+    model = dtres.drive(lines)
     ctx.count('generate_dates', len(lines))
     for l, a, m in zip(lines, impl, model):
         if a != '1,1,1,0,0,0|1,1,1,0,0,0':
@@ -200,7 +200,7 @@ def unit_match_to_date(ctx, T, contract):
                     lines.append('\t'.join(['dt.m2d', tag, dtres.dt_field(ref)] + fields + [str(wy)]))
                     impl.append(a)
                     meta.append((culture, m.group(), 'date_regex#%d' % i, groups, ref))
-    model = common.driver(lines)
+    model = dtres.drive(lines)
     ctx.count('match_to_date', len(lines))
     per = {}
     for (culture, text, name, groups, ref), l, a, mo in zip(meta, lines, impl, model):
@@ -262,7 +262,7 @@ def unit_match_to_date_zh(ctx, T, contract):
             lines.append('\t'.join(['dt.m2dzh', dtres.dt_field(ref), cps(y), '-', cps(mo), cps(d), str(cy)]))
             impl.append(a)
             meta.append((m.group(), 'date_regex#%d' % i, {'year': y, 'yearchs': ychs, 'month': mo, 'day': d, 'chsYear': cy}, ref))
-    model = common.driver(lines)
+    model = dtres.drive(lines)
     ctx.count('match_to_date(zh)', len(lines))
     for (text, name, groups, ref), l, a, mo in zip(meta, lines, impl, model):
         if a.startswith('1|') and not a.endswith('1,1,1,0,0,0|1,1,1,0,0,0'):
@@ -306,7 +306,7 @@ def unit_resolution(ctx, T):
                         a = dtres.err_kind(e)
                     lines.append('\t'.join(['dt.res', 'date', '1', cps(timex), cps(comment), dtres.dt_field(fut), dtres.dt_field(past)]))
                     impl.append(a)
-    model = common.driver(lines)
+    model = dtres.drive(lines)
     ctx.count('_date_time_resolution(date)', len(lines))
     for l, a, m in zip(lines, impl, model):
         if a != m:
